@@ -192,8 +192,8 @@ func (t *FnTrans) havocCall(key string, c *ssa.CallCommon, res ssa.Value) {
 	t.abstr["havoc-call:"+key] = true
 	// everything reachable may change
 	for cn, s := range t.compSort {
-		if strings.HasPrefix(cn, "L.") {
-			continue // lockset of the current goroutine is not changed by callees (balanced locking assumed for unknown code)
+		if strings.HasPrefix(cn, "L.") || strings.HasPrefix(cn, "GL.") {
+			continue // lockset of the current goroutine is not changed by callees (balanced locking assumed for unknown code); ghost locals belong to this activation
 		}
 		if cn == "$alloc" {
 			na := t.newConst("$alloc", "Int")
@@ -611,7 +611,7 @@ func (t *FnTrans) modItem(x *Expr, env *Env, f func(comp, sort, ref string)) {
 	switch {
 	case x.Op == "id" && x.Name == "everything":
 		for cn, s := range t.compSort {
-			if cn != "$alloc" && !strings.HasPrefix(cn, "L.") {
+			if cn != "$alloc" && !strings.HasPrefix(cn, "L.") && !strings.HasPrefix(cn, "GL.") {
 				f(cn, s, "")
 			}
 		}
@@ -937,7 +937,7 @@ func (t *FnTrans) frameCheck() {
 	sort.Strings(comps)
 	a0 := q("$alloc@0")
 	for _, c := range comps {
-		if c == "$alloc" || allowedWhole[c] {
+		if c == "$alloc" || allowedWhole[c] || strings.HasPrefix(c, "GL.") {
 			continue
 		}
 		if strings.HasPrefix(c, "TD.") && t.ct.Opts["debts-change"] != "" {
